@@ -306,6 +306,10 @@ def run_case(case):
     wit["nd"] = nd
     obs = {}
     checks = 0
+    if float(w) == int(w) and sum(case["rs"]) % 3 == 2:
+        # an integral kernel width handed over as a narrow NumPy integer (a header field)
+        w = [np.int8, np.int16, np.uint8][(sum(case["rs"]) // 3) % 3](w)
+        sig += "|intwidth"
     try:
         if sum(case["rs"]) % 4 == 1:
             y = sp.nufft(x, coord, ov, w)          # documented signature, positional
